@@ -208,7 +208,7 @@ func genWorld(r *simkit.RNG, sc *Scenario, k *gknobs) {
 			}
 		}
 		if k.hostileTrees {
-			addHostile(r, &p, i, np)
+			addHostile(r, &p, i, np, sc.UID == 0)
 		}
 		if k.rules && r.Chance(2, 3) {
 			s := genPkgRules(r, &p)
@@ -428,7 +428,7 @@ func splitSub(a string) (string, string) {
 	return a, ""
 }
 
-func addHostile(r *simkit.RNG, p *Pkg, i, np int) {
+func addHostile(r *simkit.RNG, p *Pkg, i, np int, rootRun bool) {
 	choices := []PFile{
 		{Path: "h-rel-out", Kind: "link", Target: "../outside"},
 		{Path: "h-abs-out", Kind: "link", Target: "/etc/shadow"},
@@ -436,6 +436,8 @@ func addHostile(r *simkit.RNG, p *Pkg, i, np int) {
 		{Path: "h-manifest", Kind: "link", Target: "../terraform-sources.json"},
 		{Path: "h-dangling", Kind: "link", Target: "nothing-here"},
 		{Path: "h-fifo", Kind: "fifo", Mode: 0o644},
+		{Path: "h-sock", Kind: "sock", Mode: 0o644},
+		{Path: "h-dev", Kind: "dev", Mode: 0o644},
 		{Path: "h-self", Kind: "link", Target: "h-self"},
 		{Path: "h-chain1", Kind: "link", Target: "h-chain2"},
 		{Path: "h-chain2", Kind: "link", Target: "main.tf"},
@@ -459,6 +461,12 @@ func addHostile(r *simkit.RNG, p *Pkg, i, np int) {
 		c := simkit.Pick(r, choices)
 		if hasPath(p.Files, c.Path) {
 			continue
+		}
+		if c.Kind == "dev" && !rootRun {
+			c = PFile{Path: "h-sock", Kind: "sock", Mode: 0o644}
+			if hasPath(p.Files, c.Path) {
+				continue
+			}
 		}
 		if strings.HasPrefix(c.Path, "ign/") || c.Path == "h-into-ign" {
 			if !hasPath(p.Files, "ign") {
